@@ -21,7 +21,7 @@ def cases(tier, seed):
     out = D.spec_cases(tier, seed, CLASSES, 640, 3600, "c16")
     # appended classes of vlib/gen2.py (added after the generator freeze; see DESIGN.md 2.2)
     from vlib import gen2
-    return out + gen2.appended(tier, seed, "c16", ['A1', 'A3', 'A2', 'A3'], 120, 800)
+    return out + gen2.appended(tier, seed, "c16", ['A1', 'A3', 'A2', 'A3'], 120, 360)
 
 
 def run_case(case):
